@@ -2,8 +2,16 @@
 Nothing here imports tensorly.  Everything is either an explicit loop or an
 np.einsum *sublist* call (no equation strings)."""
 import numpy as np
+from hypothesis import strategies as st
 
 from . import ref
+
+
+@st.composite
+def shapes(draw, min_order=1, max_order=4, min_side=1, max_side=4):
+    """like gen.shapes, but the order is drawn uniformly first (st.lists favours short lists)"""
+    n = draw(st.integers(min_order, max_order))
+    return [draw(st.integers(min_side, max_side)) for _ in range(n)]
 
 
 def prod(xs):
